@@ -79,28 +79,6 @@ theorem sortTexts_sorted (l : List Text) :
 
 /-! ## JSON schema: `definitions` -/
 
-theorem lookup_of_mem {V : Type} : ∀ (m : Dict V) (k : Text), k ∈ m.map Prod.fst →
-    ∃ v, m.lookup k = some v
-  | [], _, h => by simp at h
-  | (k', v') :: m, k, h => by
-    by_cases hk : k = k'
-    · subst hk; exact ⟨v', by simp [List.lookup]⟩
-    · have hk' : (k == k') = false := by simpa using hk
-      simp only [map_cons, mem_cons] at h
-      rcases h with h | h
-      · exact absurd h hk
-      · obtain ⟨v, hv⟩ := lookup_of_mem m k h
-        exact ⟨v, by simp [List.lookup, hk', hv]⟩
-
-theorem mapM_lookup_some {V : Type} (m : Dict V) : ∀ ks : List Text,
-    (∀ k ∈ ks, k ∈ m.map Prod.fst) →
-    ∃ d, ks.mapM (fun k => (m.lookup k).map (fun v => (k, v))) = some d ∧ d.map Prod.fst = ks
-  | [], _ => ⟨[], by simp⟩
-  | k :: ks, h => by
-    obtain ⟨v, hv⟩ := lookup_of_mem m k (h k mem_cons_self)
-    obtain ⟨d, hd, hdk⟩ := mapM_lookup_some m ks (fun k' hk' => h k' (mem_cons_of_mem _ hk'))
-    exact ⟨(k, v) :: d, by simp [List.mapM_cons, hv, hd], by simp [hdk]⟩
-
 /-- The `definitions_mapping[name]` lookups can not raise `KeyError`, and the emitted keys are
 exactly the sorted keys. -/
 theorem emit_never_keyerror {V : Type} (m : Dict V) :
@@ -117,36 +95,6 @@ theorem emit_sorted {V : Type} (m d : Dict V) (h : emitDefinitions m = some d) :
   cases hd'
   rw [hk]
   exact sortTexts_sorted _
-
-theorem lookup_perm {V : Type} {m m' : Dict V} (h : m.Perm m') (hn : (m.map Prod.fst).Nodup)
-    (k : Text) : m.lookup k = m'.lookup k := by
-  induction h with
-  | nil => rfl
-  | cons x _ ih =>
-    obtain ⟨k', v'⟩ := x
-    simp only [map_cons, nodup_cons] at hn
-    simp only [List.lookup]
-    split
-    · rfl
-    · exact ih hn.2
-  | swap x y l =>
-    obtain ⟨kx, vx⟩ := x
-    obtain ⟨ky, vy⟩ := y
-    simp only [map_cons, nodup_cons, mem_cons, not_or] at hn
-    by_cases h1 : k = kx
-    · by_cases h2 : k = ky
-      · exact absurd (h2.symm.trans h1) hn.1.1
-      · have h2' : (k == ky) = false := by simpa using h2
-        subst h1
-        simp [List.lookup, h2']
-    · have h1' : (k == kx) = false := by simpa using h1
-      by_cases h2 : k = ky
-      · subst h2
-        simp [List.lookup, h1']
-      · have h2' : (k == ky) = false := by simpa using h2
-        simp [List.lookup, h1', h2']
-  | trans h₁ _ ih₁ ih₂ =>
-    rw [ih₁ hn, ih₂ ((h₁.map Prod.fst).nodup_iff.1 hn)]
 
 /-- **Insertion-order independence of the emitted `definitions`**: two dicts with the same
 bindings inserted in different orders are emitted identically. The hypothesis is the dict
